@@ -99,7 +99,7 @@ Qed.
 (* whatever the decoder classifies is an error RFC 4271 owes for that transmission ... *)
 Theorem decode_owes : forall m e, decode m = DErr (Some e) -> owes m e.
 Proof.
-  intros m e H. destruct m as [ | o | ann wd | c0 s0 | mk len typ avail | n | ]; cbn [decode] in H; try discriminate.
+  intros m e H. destruct m as [ | o | ann wd | pr pb pv | c0 s0 | mk len typ avail | n | ]; cbn [decode] in H; try discriminate.
   - destruct (validate_open o) eqn:V; [|discriminate]. inversion H; subst. apply ow_open. apply validate_open_sound. exact V.
   - destruct (notification_valid c0 s0); discriminate.
   - destruct (decode_header mk len typ) eqn:D.
@@ -157,7 +157,7 @@ Qed.
    without a BGPError: an established session receiving such an UPDATE closes without NOTIFICATION. *)
 Definition wit_cfg : cfg :=
   {| c_las := 65001; c_pas := 65002; c_rid := 10; c_hold := 90; c_v4 := true; c_v6 := false;
-     c_apr4 := false; c_aps4 := false; c_apr6 := false; c_aps6 := false; c_mp4 := false;
+     c_apr4 := false; c_aps4 := false; c_apr6 := false; c_aps6 := false; c_mp4 := false; c_nx4 := false;
      c_role := 0; c_strict := false; c_rr := false; c_cluster := 0; c_imp := ImpAccept; c_passive := false |}.
 Definition wit_open : open_msg := {| o_ver := 4; o_asn := 65002; o_hold := 90; o_id := 7; o_caps := [CapASN4 65002] |}.
 Definition wit_sess : sess := final wit_cfg [EAdmin 1; ETcpUp false; EMsg (MOpen wit_open); EMsg MKeepalive].
